@@ -628,6 +628,50 @@ func runDC(r *runner, work *choice.Source, repair, forceBig bool) (fs []Finding)
 			fs = append(fs, Finding{"dc|interior", fmt.Sprintf("%s: interior points: %s", r.st.Desc, d)})
 		}
 	}
+	// (drawn last) a DualContouring value that has been used before: one call with
+	// some options set differently, then the options of this case restored and the
+	// call repeated on the same value.  The faces may not depend on what the value
+	// was used for earlier.
+	if len(fs) == 0 && !repair && work.Chance(1, 3) {
+		flip := work.Intn(7)
+		var again *model3d.Mesh
+		what := []string{"NoJitter flipped", "Clip flipped", "another TriangleMode", "BufferSize changed", "MaxGos changed", "Delta doubled", "MeshInterior instead of Mesh / Mesh instead of MeshInterior"}[flip]
+		if f := r.sim(v, func() {
+			dc := mk(solid, buf, maxGos)
+			saved := *dc
+			switch flip {
+			case 0:
+				dc.NoJitter = !dc.NoJitter
+			case 1:
+				dc.Clip = !dc.Clip
+			case 2:
+				dc.TriangleMode = (dc.TriangleMode + 1) % 3
+			case 3:
+				dc.BufferSize = 4*nx*ny + 7
+			case 4:
+				dc.MaxGos = dc.MaxGos%3 + 1
+			case 5:
+				dc.Delta *= 2
+			}
+			if interior != (flip == 6) {
+				dc.MeshInterior()
+			} else {
+				dc.Mesh()
+			}
+			dc.S, dc.Delta, dc.Repair, dc.Clip, dc.NoJitter, dc.TriangleMode, dc.BufferSize, dc.MaxGos = saved.S, saved.Delta, saved.Repair, saved.Clip, saved.NoJitter, saved.TriangleMode, saved.BufferSize, saved.MaxGos
+			if interior {
+				again, _ = dc.MeshInterior()
+			} else {
+				again = dc.Mesh()
+			}
+		}); f != nil {
+			return []Finding{*f}
+		}
+		r.st.probe("dc.value_used_before")
+		if d := diff(want, canon3(again)); d != "" {
+			fs = append(fs, Finding{"dc|reused-value", fmt.Sprintf("%s: second call on a DualContouring value that had been used with %s: %s", r.st.Desc, what, d)})
+		}
+	}
 	return
 }
 
